@@ -20,9 +20,23 @@ from harness.models import sgmodel
 from harness.replay.footprint import registry_footprint, krrood_census
 from test.dataset.university_ontology_like_classes import Company, Person
 
+from dataclasses import dataclass as _dataclass
+from krrood.entity_query_language.predicate import Symbol
+from krrood.entity_query_language.entity import inference
+from krrood.entity_query_language.conclusion import Add
+
+
+@_dataclass(eq=False)
+class Tag(Symbol):
+    """What a rule infers from a person (SymbolGraph.tla Infer): it refers to the person it was inferred from."""
+    p: Person
+    name: str = "tag"
+
+
 CLS = dict(sgmodel.HIER)
 CLS["P"] = Person
 CLS["C"] = Company
+CLS["T"] = Tag
 NAME = {v: k for k, v in CLS.items()}
 
 # truth value of every model instance, switchable per case: a Symbol whose class defines __bool__ / __len__ may be falsy
@@ -86,6 +100,14 @@ class Run:
             else:
                 foreign += 1
         return bag, foreign, none, err
+
+    def infer(self, p):
+        x = let(Person, [p])
+        q = an(entity(v := let(Tag, None), x.name != ""))
+        with q:
+            Add(v, inference(Tag)(p=x))
+        res = [r for r in q.evaluate() if isinstance(r, Tag) and r.p is p]
+        return res[-1] if res else None
 
     def queryx(self, klass, dom):
         """An explicit-domain query, built, evaluated and discarded inside this frame."""
@@ -162,6 +184,22 @@ class Run:
             out["bag"] = {str(k): v for k, v in sorted(bag.items())}
             out["foreign"] = foreign
             out["none"] = none
+        elif a == "infer":
+            # a rule query over the explicit domain [p] infers a new instance; query and variables are dropped at once
+            o = rec["o"] + self.base
+            try:
+                inst = self.infer(self.objs[rec["p"] + self.base])
+            except Exception as ex:
+                out["error"] = f"{type(ex).__name__}: {ex}"
+                inst = None
+            if inst is not None:
+                self.objs[o] = inst
+                self.wr[o] = weakref.ref(inst)
+                self.cls[o] = "T"
+                self.addr_of[o] = id(inst)
+            else:
+                out.setdefault("error", "the rule inferred nothing")
+            del inst
         elif a == "declare":
             # the query object is built now and evaluated by a later step
             self.declared = an(entity(let(CLS[rec["c"]], None)))
